@@ -1673,8 +1673,8 @@ func (w *Proxy) drawVerdicts(r *peers.ReqRec) string {
 		if f.Phase < 0 || !ch.Chance("work", "fverdict", 1, 3) {
 			continue
 		}
-		v := pickFrom(ch, "work", "fverdictkind", []string{"hijack", "stop", "terminate", "hijackbody", "direct", "rematch", "rechoose", "hijack", "sendstop"})
-		if v == "sendstop" && !f.Send {
+		v := pickFrom(ch, "work", "fverdictkind", []string{"hijack", "stop", "terminate", "hijackbody", "direct", "rematch", "rechoose", "hijack", "sendstop", "sendhijack"})
+		if (v == "sendstop" || v == "sendhijack") && !f.Send {
 			v = "continue" // only a filter that is also a send filter can stop the send chain
 		}
 		if v == "rematch" && f.Phase == 2 {
